@@ -10,6 +10,7 @@ import (
 	"strconv"
 	"strings"
 	"time"
+	"verifmc/vorder"
 
 	"verifmc/node"
 
@@ -494,6 +495,21 @@ func runCase(c *Case) (o outcome) {
 	}
 	// (3) determinism: the same case on an identically rebuilt state, production configuration (no tracer)
 	st1, j1 := fullDump(am1)
+	if c.To == "P9" {
+		// the reward precompile sums its settings in a loop over a map: the result must be the same under
+		// every iteration order (source overlay pass maprange; policy 1 = sorted is the order of run 1)
+		for pol := 2; pol <= vorder.Policies; pol++ {
+			vorder.SetPolicy(pol)
+			amp := w.build()
+			resp, panp := safeExec(c, amp, nil)
+			vorder.SetPolicy(1)
+			stp, jp := fullDump(amp)
+			if panp != nil || !bytes.Equal(res1.ret, resp.ret) || res1.left != resp.left || errStr(res1.err) != errStr(resp.err) || stp != st1 || jp != j1 {
+				o.findings = append(o.findings, finding{class: "nondeterministic", sub: "map-order", what: fmt.Sprintf("map iteration order %d: ret %x gas left %d err %q, sorted order: ret %x gas left %d err %q (state equal: %v)", pol, resp.ret, resp.left, errStr(resp.err), res1.ret, res1.left, errStr(res1.err), stp == st1)})
+				break
+			}
+		}
+	}
 	am2 := w.build()
 	res2, pan2 := safeExec(c, am2, nil)
 	if pan2 != nil {
